@@ -225,7 +225,7 @@ def view_spec(draw, shape, kinds=("none", "ellipsis", "tuple", "short", "mixed",
         has_slice = False
         for i in range(k):
             if draw(st.booleans()):
-                items.append(["i", draw(st.integers(0, shape[i] - 1))])
+                items.append(["i", draw(st.integers(-shape[i], shape[i] - 1))])
             else:
                 items.append(draw(slice_spec(shape[i])))
                 has_slice = True
@@ -234,8 +234,14 @@ def view_spec(draw, shape, kinds=("none", "ellipsis", "tuple", "short", "mixed",
             items[draw(st.integers(0, k - 1))] = draw(slice_spec(shape[0]))
         return ["tuple", items]
     if kind == "fancy":
-        m = draw(st.integers(1, 4))
-        return ["fancy", [draw(st.lists(st.integers(0, shape[i] - 1), min_size=m, max_size=m)) for i in range(nd)]]
+        # one integer index array per axis, all of one (possibly n-d) shape
+        ishape = draw(st.sampled_from([[1], [2], [3], [4], [2, 2], [1, 3], [2, 1, 2], [2, 2, 2]]))
+        m = int(np.prod(ishape))
+        arrs = []
+        for i in range(nd):
+            flat = draw(st.lists(st.integers(-shape[i], shape[i] - 1), min_size=m, max_size=m))
+            arrs.append(np.array(flat).reshape(ishape).tolist())
+        return ["fancy", arrs]
     if kind == "bool":
         n = int(np.prod(shape))
         return ["bool", draw(st.lists(st.booleans(), min_size=n, max_size=n))]
